@@ -29,11 +29,11 @@ def lift (f : St → St) : Eff TSt ErrKind Unit := fun t =>
 
 def excOf (name : String) : ErrKind :=
   if name == "EdzedUnknownEvent" then .unknownEvent
+  else if name == "EdzedCircuitError" then .circuitError
   else if name == "AssertionError" then .assertion
-  else if name == "TypeError" then .assertion
   else if name == "ValueError" then .valueError
   else if name == "KeyError" then .keyError
-  else .circuitError
+  else .fuel    -- any other class (TypeError, RuntimeError, …): a kind that no path of the model produces
 
 /-- the primitives of `_ctx_event` = the operations of the model -/
 def prims (c : Cfg) : FsmPrims TSt TEvent EvData String TEvent Val Dur ErrKind where
